@@ -51,6 +51,7 @@ Section Policies.
       prel (complete G c infl typ comp data rest) (complete S c infl typ comp data rest).
   Proof.
     intros c infl typ comp data rest. unfold complete.
+    destruct (dtrip c comp data); [apply prel_refl|].
     destruct comp.
     - destruct (infl data) as [out|]; [|apply prel_refl].
       destruct ((0 <? s_dlimit c) && (s_dlimit c <? N.of_nat (length out))); [apply prel_refl|].
@@ -94,7 +95,8 @@ Section Policies.
     - change (lax G VMsgLen63) with true. change (lax S VMsgLen63) with false. cbv iota.
       right. exists VMsgLen63. split; reflexivity.
     - destruct ((0 <? s_limit c) && (s_limit c <? total0 + len)); [apply prel_refl|].
-      apply need_prel. intros pl bs4. destruct fin; [apply complete_prel|apply prel_refl].
+      destruct (take_n len bs3) as [[pl bs4]|]; [|apply prel_refl].
+      destruct fin; [apply complete_prel|apply prel_refl].
   Qed.
 
   Lemma frame_prel : forall c infl frag bs, prel (spec_frame G c infl frag bs) (spec_frame S c infl frag bs).
@@ -174,9 +176,10 @@ Section Policies.
         destruct (match frag with Some f => f | None => (b_opcode b0, b_rsv1 b0 && s_compress c, [], 0) end) as [[[typ comp] acc] total0].
         destruct (two63 <=? total0 + len); [destruct (lax P VMsgLen63); discriminate|].
         destruct ((0 <? s_limit c) && (s_limit c <? total0 + len)); [discriminate|].
-        apply need_cont in H' as [pl [bs4 [T H']]]. pose proof (take_n_rest_length _ _ _ _ T).
+        destruct (take_n len bs3) as [[pl bs4]|] eqn:T; [|destruct (dtrip c comp (acc ++ unmask c key bs3)); discriminate].
+        pose proof (take_n_rest_length _ _ _ _ T).
         destruct (b_fin b0).
-        + unfold complete in H'.
+        + unfold complete in H'. destruct (dtrip c comp (acc ++ unmask c key pl)); [discriminate|].
           assert (Hfin : forall out, check P (if (typ =? 1) && negb (utf8_valid out) then [VTextUtf8] else [])
                                            (FCont [SMsg typ out] None bs4) = FCont evs frag' rest ->
                                      no_end evs /\ (length rest <= length bs3)%nat).
@@ -186,7 +189,8 @@ Section Policies.
             destruct ((0 <? s_dlimit c) && (s_dlimit c <? N.of_nat (length out))); [discriminate|].
             apply (Hfin out H').
           * apply (Hfin _ H').
-        + inversion H'; subst. split; [|lia]. intros o []. }
+        + destruct (dtrip c comp (acc ++ unmask c key pl)); [discriminate|].
+          inversion H'; subst. split; [|lia]. intros o []. }
     destruct Hfinal as [F1 F2]. split; [exact F1|lia].
   Qed.
 
@@ -251,9 +255,12 @@ Section Policies.
               destruct (match frag with Some f => f | None => (b_opcode b0, b_rsv1 b0 && s_compress c, [], 0) end) as [[[typ comp] acc] total0].
               destruct (two63 <=? total0 + len); [destruct (lax P VMsgLen63); inversion Hb; eexists; (split; [|reflexivity]); discriminate|].
               destruct ((0 <? s_limit c) && (s_limit c <? total0 + len)); [inversion Hb; eexists; split; [|reflexivity]; discriminate|].
-              destruct (take_n len bs3) as [[pl bs4]|]; [|inversion Hb; eexists; split; [|reflexivity]; discriminate].
-              destruct (b_fin b0); [|discriminate].
+              destruct (take_n len bs3) as [[pl bs4]|];
+                [|destruct (dtrip c comp (acc ++ unmask c key bs3)); inversion Hb; eexists; (split; [|reflexivity]); discriminate].
+              destruct (b_fin b0);
+                [|destruct (dtrip c comp (acc ++ unmask c key pl)); [inversion Hb; eexists; split; [|reflexivity]; discriminate|discriminate]].
               unfold complete, check in Hb.
+              destruct (dtrip c comp (acc ++ unmask c key pl)); [inversion Hb; eexists; split; [|reflexivity]; discriminate|].
               destruct comp.
               + destruct (infl (acc ++ unmask c key pl)) as [out|]; [|inversion Hb; eexists; split; [|reflexivity]; discriminate].
                 destruct ((0 <? s_dlimit c) && (s_dlimit c <? N.of_nat (length out))); [inversion Hb; eexists; split; [|reflexivity]; discriminate|].
@@ -381,7 +388,7 @@ Qed.
 
 Lemma deliver_clean : forall cfg infl typ dc data, existsb bad_event (fst (deliver cfg infl typ dc data)) = false.
 Proof.
-  intros. unfold deliver. destruct dc; [|reflexivity].
+  intros. unfold deliver. destruct (gtrip cfg dc data); [reflexivity|]. destruct dc; [|reflexivity].
   destruct (infl (data ++ flate_tail)) as [out|]; [|reflexivity].
   destruct ((0 <? rc_dlimit cfg) && (rc_dlimit cfg <? N.of_nat (length out))); reflexivity.
 Qed.
@@ -453,13 +460,15 @@ Proof.
       - rewrite Hinv in Hf. destruct (b_opcode b0 =? 0); [eauto|discriminate].
       - rewrite Hinv in Hf. destruct (b_opcode b0 =? 0); [discriminate|]. simpl in Hdata. rewrite Hdata. eauto. }
     destruct Hstart as [typ [dc [acc ->]]].
-    destruct (take_n len bs3) as [[pl bs4]|] eqn:TP; [|reflexivity].
+    destruct (take_n len bs3) as [[pl bs4]|] eqn:TP;
+      [|destruct (gtrip cfg dc (acc ++ (if rc_server cfg then xor_mask key 0 bs3 else bs3))); reflexivity].
     pose proof (take_n_rest_length _ _ _ _ TP).
     simpl g_final. destruct (b_fin b0).
     + pose proof (deliver_clean cfg infl typ dc (acc ++ (if rc_server cfg then xor_mask key 0 pl else pl))) as DC.
       destruct (deliver cfg infl typ dc _) as [evs [|]]; simpl in DC; [|exact DC].
       split; [exact DC|]. split; [reflexivity|lia].
-    + split; [reflexivity|]. split; [reflexivity|lia].
+    + destruct (gtrip cfg dc (acc ++ (if rc_server cfg then xor_mask key 0 pl else pl))); [reflexivity|].
+      split; [reflexivity|]. split; [reflexivity|lia].
 Qed.
 
 Lemma read_loop_safe : forall fuel cfg infl st cur bs,
